@@ -138,6 +138,16 @@ class C03(TreeSpec):
     rule = TreeSpec.rule + "; every 5th run is a capital-scaling twin: fractional positions, size-proportional costs, the same plan with capital (and hence every flow and amount) x k must give the same index (1e-9 relative)"
 
     def gen(self, r, tier, i):
+        if i % 10 == 7:
+            # engine twin: repeated Rebalance to slowly changing targets (small corrections), fractional, proportional costs
+            plan = drive_engine.gen_rebalance_plan(r, tier)
+            plan["cfg"]["integer"] = False
+            plan["cfg"]["comm"] = r.choice([None, {"kind": "prop", "rate": 0.001}])
+            plan["cfg"]["obs_eod"] = False
+            plan["tree"]["algos"] = [a for a in plan["tree"]["algos"] if a.get("a") != "Chaos"]
+            plan["engine_scale_twin"] = r.choice([1.0, 10.0, 1e8])
+            plan["seed"] = r.randrange(1 << 30)
+            return plan
         if i % 5 != 2:
             return TreeSpec.gen(self, r, tier, i)
         plan = drive_tree.gen_plan(r, "accounting", tier, knobs=dict(fi=0.0, coupon=0.0))
@@ -154,6 +164,8 @@ class C03(TreeSpec):
         return plan
 
     def run(self, bt, plan):
+        if plan.get("engine_scale_twin"):
+            return self.run_engine_twin(bt, plan)
         res = TreeSpec.run(self, bt, plan)
         k = plan.get("twin_scale")
         if not k or res["viol"]:
@@ -190,6 +202,32 @@ class C03(TreeSpec):
                 res["viol"].append({"check": "scale_invariance", "detail": "capital x %r: index on row %d is %r instead of %r" % (k, i, b[i], a[i]), "flags": {}})
                 break
         return res
+
+
+def _c03_engine_twin(self, bt, plan):
+    import numpy as np
+
+    a, ea = drive_engine.run_light(bt, plan, seed=plan["seed"])
+    p2 = dict(plan, cfg=dict(plan["cfg"], capital=plan["engine_scale_twin"]))
+    b, eb = drive_engine.run_light(bt, p2, seed=plan["seed"])
+    res = dict(viol=[], fired={"capital_scale_twin_engine": 1}, nontrivial=False, info={}, dates=len(plan["feed"]["dates"]) * 2, steps=2)
+    if ea is not None or eb is not None or a.root is None or b.root is None:
+        res["info"]["inconclusive_twin_stopped"] = 1
+        return res
+    if a.root.bankrupt or b.root.bankrupt:
+        res["info"]["inconclusive_twin_near_zero_equity"] = 1
+        return res
+    xa = a.root.prices.to_numpy(dtype=float)
+    xb = b.root.prices.to_numpy(dtype=float)
+    res["nontrivial"] = bool((np.abs(xa - 100.0) > 1e-9).any())
+    bad = np.abs(xa - xb) > 1e-7 * (np.abs(xa) + 1)
+    if bad.any():
+        i = int(np.argmax(bad))
+        res["viol"].append({"check": "scale_invariance", "detail": "real Backtest, fractional positions, size-proportional costs: capital %r gives index[%d]=%r, capital %r gives %r" % (plan["cfg"]["capital"], i, xa[i], plan["engine_scale_twin"], xb[i]), "flags": {"engine": True}})
+    return res
+
+
+C03.run_engine_twin = _c03_engine_twin
 
 
 @register
